@@ -221,11 +221,15 @@ func (s *scanner) processTail() (lexeme.LexEvent, error) {
 	case lexeme.InlineAnnotationTextBegin:
 		return s.processingFoundLexeme(lexeme.InlineAnnotationTextEnd)
 
-	case lexeme.MultiLineAnnotationBegin:
-		return s.processingFoundLexeme(lexeme.MultiLineAnnotationEnd)
-
-	case lexeme.MultiLineAnnotationTextBegin:
-		return s.processingFoundLexeme(lexeme.MultiLineAnnotationTextEnd)
+	case lexeme.MultiLineAnnotationBegin, lexeme.MultiLineAnnotationTextBegin:
+		// "[1] /* never closed": the text ends inside a comment. (When only
+		// the length is asked for, what follows the list is not looked at.)
+		if s.lengthComputing {
+			if s.stack.Peek().Type() == lexeme.MultiLineAnnotationBegin {
+				return s.processingFoundLexeme(lexeme.MultiLineAnnotationEnd)
+			}
+			return s.processingFoundLexeme(lexeme.MultiLineAnnotationTextEnd)
+		}
 	}
 
 	err := errors.NewDocumentError(s.file, errors.ErrUnexpectedEOF)
